@@ -1233,7 +1233,7 @@ def sample_workloads(n, salt):
     return out
 
 
-N_ENUM = dict(quick=(5, 1), thorough=(5, 115))  # (canonical, generated)
+N_ENUM = dict(quick=(5, 1), thorough=(5, 40))  # (canonical, generated)
 CUTS = dict(quick=[500], thorough=[1, 500, 999])
 
 
@@ -1748,11 +1748,11 @@ def _conc_strategy():
 
 
 SUBCHECKS = [
-    SubCheck('faithful', _faithful_strategy, run_case, quick=224, thorough=1730, quick_time=400.0, describe='fault-free workloads with adversarial text'),
+    SubCheck('faithful', _faithful_strategy, run_case, quick=224, thorough=860, quick_time=400.0, describe='fault-free workloads with adversarial text'),
     SubCheck(
-        'faults', _sampled_strategy, run_fault, quick=64, thorough=490, enumerate=enum_faults, quick_time=600.0, thorough_time=3000.0,
+        'faults', _sampled_strategy, run_fault, quick=64, thorough=240, enumerate=enum_faults, quick_time=600.0, thorough_time=3000.0,
         describe='every operation k of the enumerated workloads in mode crash (+ torn writes) and enospc; plus generated workloads with a sampled fault point',
     ),
-    SubCheck('concurrent_annotations', _conc_strategy, run_concurrent_annotations, quick=160, thorough=1240, describe='two writers of one annotations file, schedule owned at file-system-call granularity'),
+    SubCheck('concurrent_annotations', _conc_strategy, run_concurrent_annotations, quick=160, thorough=620, describe='two writers of one annotations file, schedule owned at file-system-call granularity'),
     SubCheck('sim_vs_kill', None, run_sim_vs_kill, quick=0, thorough=0, enumerate=enum_sim_vs_kill, describe='simulation vs forked child killed by os._exit'),
 ]
